@@ -12,7 +12,7 @@ import (
 func genResponseFamily(c *Ctx, filter func(string) bool) {
 	n := 10
 	if c.Tier == "thorough" {
-		n = 40
+		n = 24
 	}
 	hdrKinds := []string{"type: string", "type: integer\nformat: int64", "type: boolean", "type: array\nitems:\n  type: integer", "type: array\nitems:\n  type: string", "type: number"}
 	for i := 0; i < n; i++ {
